@@ -1241,21 +1241,38 @@ def r48_year_parts(ctx):
     want_cc = 10 ** w_yy
     want_x = 10 ** (w_yy + w_cc)
     rep.need_anchor(rule, "year decompositions")
-    f = ctx.func("parsers.TimePointParser._create_timepoint_from_info")
+    from .signtables import year_assembly, _sum_terms
+    f, stored, complete = year_assembly(ctx)
     got = {}
-    for n in walk_no_nested(f.node):
-        if isinstance(n, ast.AugAssign) and isinstance(n.op, ast.Add) and \
-                isinstance(n.value, ast.BinOp) and isinstance(
-                    n.value.op, ast.Mult):
-            k, v = n.value.left, n.value.right
-            if isinstance(v, ast.Constant):
-                k, v = v, k
-            if isinstance(k, ast.Constant):
-                for part in ("century", "expanded_year"):
-                    if part in U(v):
-                        got[part] = k.value
+    conflict = False
+    for p_, v in stored:
+        if isinstance(v, ast.UnaryOp) and isinstance(v.op, ast.USub):
+            v = v.operand
+        elif isinstance(v, ast.BinOp) and isinstance(v.op, ast.Mult) and \
+                U(v.right) in ("-1", "(-1)"):
+            v = v.left
+        for t in _sum_terms(v):
+            k = 1
+            body = t
+            if isinstance(t, ast.BinOp) and isinstance(t.op, ast.Mult):
+                if isinstance(t.left, ast.Constant):
+                    k, body = t.left.value, t.right
+                elif isinstance(t.right, ast.Constant):
+                    k, body = t.right.value, t.left
+            txt = U(body)
+            for part in ("century", "expanded_year"):
+                if "'%s'" % part in txt:
+                    if got.setdefault(part, k) != k:
+                        conflict = True
+    if not complete:
+        rep.anchor(rule, "year decompositions")
+        rep.undecided(rule, ctx.fkey(f, None, "reader-radices"), f.loc(),
+                      "the assembly of the stored year is not tabulated",
+                      ("C07", "C08"))
+        got = None
     rep.anchor(rule, "year decompositions")
-    rep.check(got.get("century") == want_cc and
+    if got is not None:
+      rep.check(got.get("century") == want_cc and not conflict and
               got.get("expanded_year") == want_x, rule,
               ctx.fkey(f, None, "reader-radices"), f.loc(),
               "the reader assembles year = YY + %d*CC + %d*X" % (want_cc,
